@@ -850,6 +850,128 @@ def set_backend_sequences(ctx, LOG):
     return n
 
 
+ODD_NAMES = ('hw:1,0,0', 'Synth, part A', 'a,b', ',', 'B,A', 'A,zz', ' padded ', 'semi;colon', 'x:y', 'slash/api', 'UM-1 (port 2)',
+             'caf\u00e9 \u97f3', '0', 'None', 'A', '$HOME', '%s', 'tab\there')
+
+
+def odd_name_cases(ctx, LOG):
+    """A port name is opaque: whatever characters a default name from the environment (or an explicit one) holds - commas,
+    colons, slashes, blanks, other scripts, a name that is or is not in the device list - it reaches the constructor as it is."""
+    n = 0
+    saved_env = {k: os.environ.get(k) for k in ENVV}
+    try:
+        for k in ENVV:
+            os.environ.pop(k, None)
+        for mod, (has_io, has_gd) in VARIANTS.items():
+            purge()
+            b = Backend(mod)
+            for name in ODD_NAMES:
+                try:
+                    os.fsencode(name)
+                except UnicodeError:
+                    continue          # this interpreter environment (C locale) cannot hold the name in a variable
+                for src in ('env', 'explicit'):
+                    for entry, var in (('open_input', 'MIDO_DEFAULT_INPUT'), ('open_output', 'MIDO_DEFAULT_OUTPUT'),
+                                       ('open_ioport', 'MIDO_DEFAULT_IOPORT'), ('open_ioport', 'pair')):
+                        case = {'kind': 'odd-name', 'module': mod, 'entry': entry, 'name': name, 'source': src, 'var': var}
+                        for k in ENVV:
+                            os.environ.pop(k, None)
+                        if src == 'env':
+                            if var == 'pair':
+                                os.environ['MIDO_DEFAULT_INPUT'] = name
+                                os.environ['MIDO_DEFAULT_OUTPUT'] = name + '.out'
+                            else:
+                                os.environ[var] = name
+                        elif var == 'pair':
+                            continue
+                        del LOG[:]
+                        try:
+                            r = getattr(b, entry)() if src == 'env' else getattr(b, entry)(name)
+                            if isinstance(r, ports.IOPort):
+                                r.closed = True
+                            got = [(e[0], e[2]) for e in LOG if e[0] not in ('import', 'get_devices')]
+                            if entry == 'open_input':
+                                want = [('Input', name)]
+                            elif entry == 'open_output':
+                                want = [('Output', name)]
+                            elif var == 'pair':
+                                want = [('IOPort', None)] if has_io else [('Input', name), ('Output', name + '.out')]
+                            else:
+                                want = [('IOPort', name)] if has_io else [('Input', name), ('Output', name)]
+                            ctx.check('constructor calls == model', got == want, 'port-name-not-passed-verbatim', case,
+                                      lambda: {'got': got, 'want': want})
+                        except Exception as exc:
+                            ctx.fail('no exception', f'odd-name:{type(exc).__name__}', case, f'{type(exc).__name__}: {exc}')
+                        n += 1
+    finally:
+        for k, v in saved_env.items():
+            if v is None:
+                os.environ.pop(k, None)
+            else:
+                os.environ[k] = v
+    return n
+
+
+def changing_device_list_cases(ctx, LOG):
+    """"Name listings derive from the module's device list" - the list as it is when the names are asked for: a device is
+    plugged in or pulled between two listings on the same Backend object, a few microseconds apart or minutes apart, on a
+    clock with nanosecond resolution and on a coarse one (15.6 ms ticks, two calls read the same time)."""
+    from .. import clock
+    n = 0
+    saved_env = {k: os.environ.get(k) for k in ENVV}
+    try:
+        for k in ENVV:
+            os.environ.pop(k, None)
+        for mod, (has_io, has_gd) in VARIANTS.items():
+            if not has_gd:
+                continue
+            for timer in ('fine', 'coarse', 'coarse', 'coarse', 'jump'):
+                purge()
+                b = Backend(mod)
+                module = b.module
+                orig = list(module.DEVICES)
+                case = {'kind': 'changing-device-list', 'module': mod, 'timer': timer}
+                cm = clock.coarse() if timer == 'coarse' and clock.installed() else None
+                try:
+                    if cm:
+                        cm.__enter__()
+                    steps = []
+                    for step in range(4):
+                        if step == 1:
+                            module.DEVICES.append({'name': 'NEW', 'is_input': True, 'is_output': True})
+                        elif step == 2:
+                            del module.DEVICES[0]
+                        elif step == 3:
+                            module.DEVICES[:] = []
+                        if timer == 'jump' and clock.installed():
+                            clock.advance(600.0)
+                        devs = [(d['name'], bool(d['is_input']), bool(d['is_output'])) for d in module.DEVICES]
+                        ins = [x for x, i, o in devs if i]
+                        outs = [x for x, i, o in devs if o]
+                        want = (ins, outs, [x for x in ins if x in set(outs)])
+                        del LOG[:]
+                        got = (b.get_input_names(), b.get_output_names(), b.get_ioport_names())
+                        queries = sum(1 for e in LOG if e[0] == 'get_devices')
+                        steps.append(step)
+                        ctx.check('name listings == model', got == want, 'listing-stale-after-device-change', dict(case, step=step),
+                                  lambda: {'got': got, 'want': want})
+                        ctx.check('device query calls == model', queries >= 3, 'listing-without-device-query', dict(case, step=step), queries)
+                        n += 1
+                except Exception as exc:
+                    ctx.fail('no exception', f'changing-devices:{type(exc).__name__}', case, f'{type(exc).__name__}: {exc}')
+                finally:
+                    if cm:
+                        cm.__exit__(None, None, None)
+                    module.DEVICES[:] = orig
+    finally:
+        for k, v in saved_env.items():
+            if v is None:
+                os.environ.pop(k, None)
+            else:
+                os.environ[k] = v
+    return n
+
+
 def run(ctx):
     n = 0
     with tempfile.TemporaryDirectory(prefix='vmon-c20-') as d:
@@ -888,6 +1010,12 @@ def run(ctx):
                 ctx.nontrivial(None, k)
                 n += k
                 k = baseclass_backend_cases(ctx, LOG, d)
+                ctx.nontrivial(None, k)
+                n += k
+                k = odd_name_cases(ctx, LOG)
+                ctx.nontrivial(None, k)
+                n += k
+                k = changing_device_list_cases(ctx, LOG)
                 ctx.nontrivial(None, k)
                 n += k
         finally:
